@@ -130,6 +130,25 @@ CHECKS['C07'] = ('DESIGN.md#C07',
     'Trusted: numpy. With a local background only the flux/area relation '
     'and footprint independence are asserted. Pixel values up to 1e30.')
 
+CHECKS['C08'] = ('DESIGN.md#C08',
+    'Hypothesis-generated histories over SourceCatalog / ApertureStats: '
+    'subset of properties evaluated first, generated index expression '
+    '(int, -1, numpy int, slices with step, lists with repeats, arrays, '
+    'boolean masks, get_label(s)/get_id(s), index-of-index), then every '
+    'public property compared with the fresh unsliced evaluation '
+    '(commutation law) and deep-snapshot independence under extra-property '
+    'and photometry operations',
+    'Generated-history search: child.p must equal pick(fresh.p, idx) for '
+    'every public property and every index form whether p was evaluated '
+    'before or after indexing, incl. scalar children; add/rename/remove '
+    'extra property, circular/kron photometry, fluxfrac_radius and '
+    'make_kron_apertures on parent or child must leave every value the '
+    'other object reports (and its to_table()) unchanged. Held on N '
+    'histories; not a proof.',
+    'The unsliced evaluation is the reference (decided by C07/C16). '
+    'Structural comparator rel 1e-9; only public (reported) values are '
+    'snapshotted.')
+
 NOT_APPLICABLE = []
 
 
